@@ -126,6 +126,7 @@ func (c *FnCtx) doCallVals(p *Path, call *ssa.CallCommon, fnv Val, args []Val, p
 	}
 	c.checkNonNil(p, fnv.T, "call of nil func")
 	c.bumpCalls(p, origin)
+	c.runGhostAt(p, "before:"+origin)
 	name := "funcvalue:" + origin
 	if fc := c.eng.lookupFuncValueSpec(p.top().fn, origin); fc != nil {
 		c.extraEnv = c.frameEnv(p, p.top(), nil)
